@@ -23,7 +23,8 @@ ASSUMPTIONS = ['"loads back to equal directives" is a property of Beancount\'s p
 FROMS = [None, "year >= 2020", "flag = '*'", "OPEN ON 2020-01-01", "CLOSE ON 2020-07-01", "OPEN ON 2019-06-01 CLOSE ON 2020-06-01 CLEAR",
          "has_account('Food') CLOSE ON 2021-01-01", "CLEAR"]
 WHERES = [None, "account ~ 'Assets'", "number > 0", "currency = 'USD' AND account ~ 'Expenses'"]
-PATTERNS = [None, 'Assets', 'Expenses:Food', 'Assets:Bank', 'Assets:Broker', 'Bank|Card', '^Income', 'nomatch']
+PATTERNS = [None, 'Assets', 'Expenses:Food', 'Assets:Bank', 'Assets:Broker', 'Bank|Card', '^Income', 'nomatch',
+            'Bank\\b', 'Assets:\\w+:Checking$', 'Expenses:Foo\\w']
 FUNCS = [None, 'units', 'cost']
 
 
@@ -178,6 +179,8 @@ def print_layer(ctx, lk, conn, entries, options):
             only_b = [x for x in b if x not in a][:2]
             ctx.record_violation('print-roundtrip', '%s: %d directives reloaded, %d expected; extra %r missing %r errors %r' % (
                 text, len(a), len(b), only_a, only_b, [str(e.message)[:80] for e in errors[:2]]), payload={'statement': text})
+    # the qualified forms again, now that unqualified scans of the entries table have happened on this connection
+    print_clause_layer(ctx, lk, conn, entries, options)
 
 
 def shallow(e):
